@@ -117,6 +117,37 @@ AddEdge == /\ Spend /\ Len(edges) < MaxEdges
 Next == AddNode \/ AddEdge \/ SetRootShape
 Spec == Init /\ [][Next]_vars
 
+(***************************************************************************)
+(* Seed graphs: one definition reached twice from the same document, once  *)
+(* bare and once inside a wrapper that adds something of its own (json_ref *)
+(* hands out the SAME dict object for both references: whatever the parser *)
+(* does to the element of the first visit must not show at the second).    *)
+(* Beyond the edge bound of the breadth-first family; SeedExtra more edges *)
+(* are added to each.                                                      *)
+(***************************************************************************)
+CONSTANT SeedExtra
+N(n, sh) == [name |-> n, shape |-> sh, uns |-> FALSE]
+SeedGraphs == {
+  (* B = {default, allOf: [A]} collapses onto A's element; R also refers to A bare *)
+  [nodes |-> << N("R", "obj"), N("A", "arr"), N("B", "any") >>,
+   edges |-> << <<"R", "prop", "A">>, <<"R", "prop", "B">>, <<"B", "all", "A">> >>],
+  [nodes |-> << N("R", "obj"), N("A", "multi"), N("B", "any") >>,
+   edges |-> << <<"R", "prop", "B">>, <<"R", "items", "A">>, <<"B", "all", "A">> >>],
+  (* the same class under a property, as items and inside a composition *)
+  [nodes |-> << N("R", "obj"), N("A", "objT"), N("B", "any") >>,
+   edges |-> << <<"R", "prop", "A">>, <<"R", "items", "A">>, <<"B", "any", "A">>, <<"R", "prop", "B">> >>],
+  (* a definition in the second file shared by two definitions of the first *)
+  [nodes |-> << N("R", "obj"), N("A", "any"), N("B", "arr"), N("oC", "multi") >>,
+   edges |-> << <<"A", "all", "oC">>, <<"B", "items", "oC">>, <<"R", "prop", "A">>, <<"R", "prop", "B">> >>] }
+SeedInit == \E g \in SeedGraphs : nodes = g.nodes /\ edges = g.edges /\ budget = SeedExtra
+SeedAddEdge == /\ Spend
+               /\ \E i, j \in 1..Len(nodes), pos \in Positions :
+                    LET e == << nodes[i].name, pos, nodes[j].name >> IN
+                    /\ PosOK(NodeSchemaOf(nodes, edges, i), pos)
+                    /\ edges' = Append(edges, e)
+               /\ UNCHANGED nodes
+SeedSpec == SeedInit /\ [][SeedAddEdge]_vars
+
 Export ==
   LET ok == ~Cyclic /\ ~AnyUnsupported
   IN PrintT(ToJson([nodes |-> nodes, edges |-> edges, doc |-> Doc, cyclic |-> Cyclic,
